@@ -815,7 +815,16 @@ fn main() {
         if only.is_some() && only != Some(h) {
             continue;
         }
-        let (line, q, nt) = run_history(h, &mut probe, steps, caches[h % 4], &mut out);
+        // a panic that escapes an operation (a debug assertion inside a drop, an unwinding commit) is a finding too
+        let mut local = vec![];
+        let (line, q, nt) = match rv_harness::catch(|| run_history(h, &mut probe, steps, caches[h % 4], &mut local)) {
+            Ok(x) => x,
+            Err(p) => {
+                local.push(("c02-panic".to_string(), format!("history {h}: panic outside the guarded operations (teardown or drop): {p}")));
+                (format!("{h}|cache={}|steps=?|readers=?|markers=|panicked", caches[h % 4]), 0, 0)
+            }
+        };
+        out.extend(local);
         for m in line.split('|').nth(4).unwrap_or("").trim_start_matches("markers=").split(',') {
             if !m.is_empty() {
                 *markers.entry(m.to_string()).or_default() += 1;
@@ -827,7 +836,20 @@ fn main() {
         run += 1;
     }
     let mut split_lines = vec![];
-    let (q2, nsplit) = if only.is_none() { run_split(&mut out, &mut split_lines) } else { (0, 0) };
+    let (q2, nsplit) = if only.is_none() {
+        let mut local = vec![];
+        let r = rv_harness::catch(|| run_split(&mut local, &mut split_lines));
+        out.extend(local);
+        match r {
+            Ok(x) => x,
+            Err(p) => {
+                out.push(("c02-panic".to_string(), format!("begin_read-split scenarios: panic outside the guarded operations: {p}")));
+                (0, 0)
+            }
+        }
+    } else {
+        (0, 0)
+    };
     for l in &split_lines {
         writeln!(hist, "S|{l}").unwrap();
     }
